@@ -41,6 +41,7 @@ import Driver.CrossType
 import Driver.AdpcmEnc
 import Driver.AbsTwin
 import Driver.AlacCore
+import Driver.AbsMeta
 open Sf
 
 def lawOf (s : String) : Option G711.Law :=
@@ -127,4 +128,5 @@ def main (args : List String) : IO UInt32 := do
   | "adpcmenc" :: rest => Driver.AdpcmEnc.cmd rest
   | "abs-twin" :: rest => AbsTwinDriver.cmd rest
   | "alaccore" :: rest => Driver.AlacCore.cmd rest
+  | "abs-meta" :: rest => AbsMetaDriver.cmd rest
   | _ => IO.eprintln "usage: sfmodel <g711|...> ..."; return 2
